@@ -124,6 +124,11 @@ def add_data(obj, model, rng, rec, name, short_by=0, too_long=False):
     n_given = len(full) - short_by if not too_long else len(full) + 2
     given = full[: max(n_given, 0)] if not too_long else full + [full[0], full[0]]
     arr = np.array(given, dtype={"float": float, "integer": "int32", "referenced": "int32", "boolean": bool, "text": "U16"}[kind])
+    if too_long and len(full) >= 1 and rng.random() < 0.4:
+        # too many entries in another shape: one row per element, but two or three columns
+        arr = np.stack([np.array(full, dtype=arr.dtype)] * rng.choice([2, 3]), axis=1)
+        given = arr.ravel().tolist()
+        rec.see("too-long-as-2d")
     spec = {"values": arr, "association": assoc}
     if kind == "text":
         spec["type"] = "text"
@@ -379,9 +384,13 @@ def run_case(case, rec):
                     rec.see("ops:short_values")
                 else:
                     rec.see("failing-calls")
+                    too = np.array(full + full[:1], dtype=dt)
+                    if rng.random() < 0.4:
+                        too = np.stack([np.array(full, dtype=dt)] * 2, axis=1)
+                        rec.see("too-long-as-2d")
                     try:
-                        child.values = np.array(full + full[:1], dtype=dt)
-                        rec.fail("C07.too-long-accepted", op="assign", cls=cls, attr=f"{dd['kind']}:{dd['assoc']}", detail=f"{len(full) + 1} values accepted for {len(full)} elements")
+                        child.values = too
+                        rec.fail("C07.too-long-accepted", op="assign", cls=cls, attr=f"{dd['kind']}:{dd['assoc']}", detail=f"{too.size} values (shape {too.shape}) accepted for {len(full)} elements")
                     except ValueError:
                         pass
                 if not judge(rec, obj, model, coords, op, cls):
